@@ -699,6 +699,8 @@ impl<'a> UserModel<'a> {
     /// * [Model::set_sheet_state]
     /// * [UserModel::unhide_sheet]
     pub fn hide_sheet(&mut self, sheet: u32) -> Result<(), String> {
+        // Fails here, before anything is changed, if the sheet does not exist
+        let old_value = self.model.workbook.worksheet(sheet)?.state.clone();
         let sheet_count = self.model.workbook.worksheets.len() as u32;
         for index in 1..sheet_count {
             let sheet_index = (sheet + index) % sheet_count;
@@ -709,7 +711,6 @@ impl<'a> UserModel<'a> {
                 break;
             }
         }
-        let old_value = self.model.workbook.worksheet(sheet)?.state.clone();
         self.push_diff_list(vec![Diff::SetSheetState {
             index: sheet,
             new_value: SheetState::Hidden,
